@@ -28,6 +28,42 @@ def variants_in(D, n, depth=2):
     return out
 
 
+PAD_FNS = ['plonk::prover::set_lookup_wires', 'plonk::vanishing_poly::get_lut_poly', 'plonk::vanishing_poly::get_lut_poly_circuit']
+
+
+def pad_bounds(F):
+    """symbolic interval (in units of num_slots) of every `num_slots - x % num_slots` padding computation in the lookup code:
+    yields (fn, let-node, (lo, hi)) | (fn, let-node, 'reason') | (fn, None, None) | (None, path, None)"""
+    for q in PAD_FNS:
+        sw = F.one(q, crate='plonky2')
+        if sw is None:
+            yield None, q, None
+            continue
+        D = defrender.Defs(sw)
+
+        def is_n(x, D=D):
+            if x.get('k') == 'Call' and parse_path(callee(x) or '')[1] == 'num_slots':
+                return True
+            if x.get('k') == 'Local':
+                d = D.defs.get(x['id'])
+                return bool(d and d[0] == 'let' and isinstance(d[1], dict) and any(y.get('k') == 'Call' and parse_path(callee(y) or '')[1] == 'num_slots' for y in walk(d[1])) and d[1].get('k') in ('Call', 'Cast', 'Ref'))
+            return False
+        cands = []
+        for n in walk(sw.body):
+            if n.get('k') == 'Let' and 'i' in n and n['p'].get('k') == 'Bind':
+                rems = [y for y in walk(n['i']) if y.get('k') == 'Bin' and y['op'] == 'Rem' and is_n(y['r'])]
+                subs = [y for y in walk(n['i']) if y.get('k') == 'Bin' and y['op'] == 'Sub' and is_n(y['l'])]
+                if rems and subs:
+                    cands.append(n)
+        if not cands:
+            yield sw, None, None
+        for n in cands:
+            try:
+                yield sw, n, symint.ev(n['i'], is_n, None)
+            except symint.Unknown as e:
+                yield sw, n, str(e)
+
+
 def run(F, ck, tier):
     E = ob.Engine(F, ck)
     for r, t in (('R08.1', 'three evaluators: same skeleton of selector-filtered pushes'), ('R08.2', 'selector exhaustiveness'), ('R08.5', 'lookup gate wires consumed'),
@@ -178,37 +214,23 @@ def run(F, ck, tier):
         need = ['c:LookupTableGate::wire_ith_looked_inp', 'c:LookupTableGate::wire_ith_looked_out', 'c:LookupTableGate::wire_ith_multiplicity', 'c:LookupGate::wire_ith_looking_inp', 'c:LookupGate::wire_ith_looking_out']
         miss = [a for a in need if not flow.has_call(d, a[2:])]
         ck.ob('R08.5', 'wires:' + q, not miss, 'all lookup gate wires flow into the returned constraints' if not miss else '%s: wires %s never reach a constraint' % (q, [m[2:] for m in miss]), '%s:%d' % (fn.file, fn.line))
-    # R08.9 padding bound
-    sw = F.one('plonk::prover::set_lookup_wires', crate='plonky2')
-    if sw is None:
-        ck.ob('R08.9', 'anchor', False, 'ANCHOR-MISSING set_lookup_wires')
-    else:
-        D = defrender.Defs(sw)
-
-        def is_n(x):
-            if x.get('k') == 'Call' and parse_path(callee(x) or '')[1] == 'num_slots':
-                return True
-            if x.get('k') == 'Local':
-                d = D.defs.get(x['id'])
-                return bool(d and d[0] == 'let' and isinstance(d[1], dict) and any(y.get('k') == 'Call' and parse_path(callee(y) or '')[1] == 'num_slots' for y in walk(d[1])) and d[1].get('k') in ('Call', 'Cast', 'Ref'))
-            return False
-        cands = []
-        for n in walk(sw.body):
-            if n.get('k') == 'Let' and 'i' in n and n['p'].get('k') == 'Bind':
-                rems = [y for y in walk(n['i']) if y.get('k') == 'Bin' and y['op'] == 'Rem' and is_n(y['r'])]
-                subs = [y for y in walk(n['i']) if y.get('k') == 'Bin' and y['op'] == 'Sub' and is_n(y['l'])]
-                if rems and subs:
-                    cands.append(n)
-        if not cands:
-            ck.observe('R08.9 not applicable: no `num_slots - x % num_slots` padding computation found in set_lookup_wires')
-        for n in cands:
-            try:
-                lo, hi = symint.ev(n['i'], is_n, None)
-                ok = symint.le(hi, (1, -1)) and symint.le((0, 0), lo)
-                ck.ob('R08.9', 'padding.bound', ok, 'padding slot count in [0, num_slots - 1]' if ok else
-                      'the padding slot count can reach %s*num_slots%+d: when the number of lookups is an exact multiple of the slot count a full row of padding is added and the multiplicity of the first entry is over-counted' % hi, n.get('s'))
-            except symint.Unknown as e:
-                ck.observe('R08.9 not applicable: expression outside the symbolic interval evaluator (%s)' % e)
+    # R08.9 padding bound: the prover's padding of looking rows and the table polynomial's padding (native and in-circuit)
+    npad = 0
+    for sw, n, res in pad_bounds(F):
+        if sw is None:
+            ck.ob('R08.9', 'anchor:' + n.split('::')[-1], False, 'ANCHOR-MISSING ' + n)
+        elif n is None:
+            ck.observe('R08.9 not applicable to %s: no `num_slots - x %% num_slots` padding computation found' % sw.qual)
+        elif isinstance(res, str):
+            ck.observe('R08.9 not applicable: expression outside the symbolic interval evaluator (%s)' % res)
+        else:
+            lo, hi = res
+            ok = symint.le(hi, (1, -1)) and symint.le((0, 0), lo)
+            npad += 1
+            ck.ob('R08.9', 'padding.bound' + ('' if sw.name == 'set_lookup_wires' else ':' + sw.name), ok, 'padding slot count in [0, num_slots - 1]' if ok else
+                  'in %s the padding slot count can reach %s*num_slots%+d: when the number of entries is an exact multiple of the slot count a full row of padding is added (%s)' % ((sw.qual,) + hi + (
+                      'the multiplicity of the first entry is over-counted' if sw.name == 'set_lookup_wires' else 'the table polynomial gets a row of padding the sibling evaluator and the prover do not have',)), n.get('s'))
+    ck.floor('R08.9', 'padding computations bounded', npad, 3)
     ck.decided += ['evaluator skeleton agreement and argument shape', 'selector exhaustiveness and tiling', 'declared count', 'initial accumulator is the one read', 'wires consumed', 'padding bound']
     ck.undecided += ['correctness of the log-derivative argument (algebra)', 'multiplicity bookkeeping values', 'row placement in add_all_lookups']
     return 'Decides structural necessary conditions of C08. The log-derivative algebra and multiplicity values are not decided.'
